@@ -27,7 +27,8 @@ func VerifH_nbp4() {
 	resp, ec, ev := vh.Resp4(req, uint8(dhcpv4.OptionTFTPServerName), uint8(dhcpv4.OptionBootfileName))
 	n0 := len(resp.Options)
 
-	r, _ := nbpHandler4(req, resp)
+	r, stop := nbpHandler4(req, resp)
+	vnd.Assert(r != nil || stop, "C13 a built-in handler returns a nil response only together with stop")
 
 	vnd.Assert(r == resp, "C17 nbp4 passes the response on")
 	want66 := opt66 != nil && (kind != 2 || vh.Listed(codes, uint8(dhcpv4.OptionTFTPServerName)))
@@ -68,7 +69,8 @@ func VerifH_nbp6() {
 	resp, _ := vh.Resp6(msg, uint16(dhcpv6.OptionBootfileURL), uint16(dhcpv6.OptionBootfileParam))
 	n0 := len(resp.Options.Options)
 
-	r, _ := nbpHandler6(req, resp)
+	r, stop := nbpHandler6(req, resp)
+	vnd.Assert(r != nil || stop, "C13 a built-in handler returns a nil response only together with stop")
 
 	vnd.Assert(r == dhcpv6.DHCPv6(resp), "C17 nbp6 passes the response on")
 	nURL, nParam := 0, 0
